@@ -32,7 +32,7 @@ def check(run: Run) -> None:
     # ---------------------------------------------------------------- R11.1
     n_writes = 0
     for fi in repair_funcs:
-        for node, kind, fld in am.ast_writes(fi):
+        for node, kind, fld in am.ast_writes(fi, res):
             n_writes += 1
             ok = kind == "store" and fld == "value"
             run.instance("R11.1", fi.module.loc(node), f"{fi.qualname}: {kind} of `.{fld}`: {norm(node)}", ok=ok)
@@ -49,7 +49,7 @@ def check(run: Run) -> None:
         fi = res.func_by_fqn(f)
         if fi in repair_funcs or fi.module.name.endswith("repair_log"):
             continue
-        for node, kind, fld in am.ast_writes(fi):
+        for node, kind, fld in am.ast_writes(fi, res):
             run.violation("R11.1", fi.module, fi.qualname, node, f"function reached from repair() performs a document {kind} on `.{fld}`")
 
     # ---------------------------------------------------------------- R11.2
@@ -100,7 +100,7 @@ def check(run: Run) -> None:
                 run.violation("R11.2", mod, rv.qualname, n, "repair_value adopts a value without the attempt having reported (and logged) a repair")
     ran = mod.func("_repair_ast_node")
     cfg = CFG(ran.node)
-    stores = [(node, kind, fld) for node, kind, fld in am.ast_writes(ran)]
+    stores = [(node, kind, fld) for node, kind, fld in am.ast_writes(ran, res)]
     for node, kind, fld in stores:
         nodes = cfg.node_for_stmt_containing(node)
         conds = [c for x in nodes for c in branch_conditions(cfg, x)]
@@ -359,7 +359,7 @@ def _unique_match(run: Run, fi: FuncInfo, mod) -> None:
             run.violation("R11.4", mod, fi.qualname, "exact-match / str guards before case-fold", f"case-fold reachable without the exact-match guard ({exact_ok}) or the isinstance(str) guard ({str_ok})", line=rn.lineno)
 
 
-def _gating(run: Run, res: Resolver, am: AstModel) -> None:
+def _gating(run: Run, res: Resolver, am: AstModel, rule: str = "R11.6") -> None:
     sites = [("mcp.validate", "ValidateTool.execute", ("fix",)), ("mcp.write", "WriteTool.execute", ("lenient",)), ("cli.main", "validate", ("fix",))]
     total = 0
     for fi in run.project.all_functions():
@@ -373,7 +373,7 @@ def _gating(run: Run, res: Resolver, am: AstModel) -> None:
                 fix_true = bool(fixkw) and isinstance(fixkw[0], ast.Constant) and fixkw[0].value is True
                 fix_passthrough = bool(fixkw) and isinstance(fixkw[0], ast.Name)
                 if not fix_true:
-                    run.instance("R11.6", fi.module.loc(n), f"{fi.qualname}: repair() called with fix={'<caller flag>' if fix_passthrough else 'default False'}", ok=True)
+                    run.instance(rule, fi.module.loc(n), f"{fi.qualname}: repair() called with fix={'<caller flag>' if fix_passthrough else 'default False'}", ok=True)
                     continue
                 flags = entry[0][2] if entry else ()
                 ok = False
@@ -388,9 +388,9 @@ def _gating(run: Run, res: Resolver, am: AstModel) -> None:
                     binds = list(_assignments(fi, fl))
                     is_param = fl in [a.arg for a in fi.node.args.args]  # type: ignore[attr-defined]
                     ok = is_param or (len(binds) == 1 and isinstance(binds[0][1], ast.Call) and isinstance(binds[0][1].func, ast.Attribute) and binds[0][1].func.attr == "get" and binds[0][1].args and isinstance(binds[0][1].args[0], ast.Constant) and binds[0][1].args[0].value == fl and (len(binds[0][1].args) < 2 or (isinstance(binds[0][1].args[1], ast.Constant) and binds[0][1].args[1].value is False)))
-                run.instance("R11.6", fi.module.loc(n), f"{fi.qualname}: repair(fix=True) is control-dependent on the caller's {'/'.join(flags) or '?'} flag (default False)", ok=ok)
+                run.instance(rule, fi.module.loc(n), f"{fi.qualname}: repair(fix=True) is control-dependent on the caller's {'/'.join(flags) or '?'} flag (default False)", ok=ok)
                 if not ok:
-                    run.violation("R11.6", fi.module, fi.qualname, n, "repair(..., fix=True) is reachable without the user's fix/lenient flag being set (values would change with fix off)")
+                    run.violation(rule, fi.module, fi.qualname, n, "repair(..., fix=True) is reachable without the user's fix/lenient flag being set (values would change with fix off)")
     if total < 3:
         raise AnalysisError(f"only {total} call(s) of repair() found")
     mod = run.project.mod("core.repair")
@@ -401,9 +401,9 @@ def _gating(run: Run, res: Resolver, am: AstModel) -> None:
         if isinstance(n, ast.Call) and ast.unparse(n.func) == "_apply_schema_repairs":
             nodes = cfg.node_for_stmt_containing(n)
             ok = all(any(val is True and any(is_name(o, pfix) for o in (t.values if isinstance(t, ast.BoolOp) and isinstance(t.op, ast.And) else [t])) for t, val in branch_conditions(cfg, x)) for x in nodes)
-            run.instance("R11.6", mod.loc(n), "repair: _apply_schema_repairs only under `fix ...`", ok=ok)
+            run.instance(rule, mod.loc(n), "repair: _apply_schema_repairs only under `fix ...`", ok=ok)
             if not ok:
-                run.violation("R11.6", mod, rp.qualname, n, "repair() applies schema repairs without testing its fix argument")
+                run.violation(rule, mod, rp.qualname, n, "repair() applies schema repairs without testing its fix argument")
     # who may call repair_value(fix=True) and _apply_schema_repairs / _repair_ast_node
     allowed = {"_repair_ast_node": {"octave_mcp.core.repair:_repair_ast_node", "octave_mcp.core.repair:_apply_schema_repairs"},
                "_apply_schema_repairs": {"octave_mcp.core.repair:repair"},
@@ -418,15 +418,15 @@ def _gating(run: Run, res: Resolver, am: AstModel) -> None:
                         if not forced:
                             continue
                         ok = fi.fqn in allowed[c.func.qualname]
-                        run.instance("R11.6", fi.module.loc(n), f"{fi.qualname} calls {c.func.qualname} (repairing entry)", ok=ok)
+                        run.instance(rule, fi.module.loc(n), f"{fi.qualname} calls {c.func.qualname} (repairing entry)", ok=ok)
                         if not ok:
-                            run.violation("R11.6", fi.module, fi.qualname, n, f"{c.func.qualname} (which changes values unconditionally) is called from outside the gated repair() pipeline")
+                            run.violation(rule, fi.module, fi.qualname, n, f"{c.func.qualname} (which changes values unconditionally) is called from outside the gated repair() pipeline")
 
 
 def _inline_meta_casefold(run: Run, res: Resolver, am: AstModel) -> None:
     fi = run.project.mod("mcp.write").func("WriteTool.execute")
     cfg = CFG(fi.node)
-    writes = [(n, k, f) for n, k, f in am.ast_writes(fi)]
+    writes = [(n, k, f) for n, k, f in am.ast_writes(fi, res)]
     n_meta = 0
     for node, kind, fld in writes:
         st = getattr(node, "_parent", None)
